@@ -22,8 +22,8 @@ import z3
 from vcommon import Outcome, Findings, build_cli, run_cli, new_replay_dir, tier
 
 SEEDED = re.compile(
-    r"(HashMap::<.*>::(iter|iter_mut|keys|values|values_mut|into_keys|into_values|drain|retain)$)|"
-    r"(HashSet::<.*>::(iter|drain|retain)$)|"
+    r"(HashMap::<.*>::(iter|iter_mut|keys|values|values_mut|into_keys|into_values|drain|retain|extract_if)(::<.*>)?$)|"
+    r"(HashSet::<.*>::(iter|drain|retain|extract_if)(::<.*>)?$)|"
     r"(<(&(mut )?)?(std::collections::)?Hash(Map|Set)<.*> as IntoIterator>::into_iter$)|"
     r"(SystemTime::now|Instant::now|RandomState::new|thread::current|thread_rng|process::id)|"
     r"(LocalKey::<.*>::(with|try_with|set|get|take|replace|with_borrow|with_borrow_mut)(::<.*>)?$)")
@@ -65,6 +65,10 @@ def run_twice(n=6, tag="determinism"):
     rdir = new_replay_dir("C06", tag)
     diffs, detail = [], {}
     progs = dict(PROGRAMS)
+    # a long file (more parse results than any bounded table keeps) that ends in implicitly named recursions: whatever is
+    # evicted or rebuilt on the way must not show in the generated names
+    progs["long-file-then-implicit-recursions"] = "".join("let v%d = { 'a num, 'b [str] };\n" % i for i in range(6000)) + \
+        "let tree = rec x { 'kids [x], 'v v17 };\nlet list = { 'next? list, 'v v4242 };\nres /tree on get -> <tree> :: <status=404, list>;\n"
     # plus every program the other checks know to be accepted (3 fresh processes each)
     import pool
     pooled = {"pool-" + k.replace("/", "-"): v for k, v in pool.programs().items() if not k.startswith("c06/")}
